@@ -29,7 +29,21 @@ def pair(draw):
 
 @st.composite
 def cases(draw):
-    n = draw(st.sampled_from((0, 1, 2, 2, 3, 3, 4, 5, 6)))
+    n = draw(st.sampled_from((0, 1, 2, 2, 3, 3, 4, 5, 6, 2, 3, 4, 3, 2, 1, "long")))
+    if n == "long":
+        # lists longer than a machine word has bits (per-pair state kept in bit masks), with identities around positions 31/32, 63/64
+        n = draw(st.sampled_from((33, 34, 40, 64, 65, 70)))
+        kind = draw(st.sampled_from(("affine", "prepared", "mixed")))
+        pairs = []
+        for i in range(n):
+            p = draw(pair())
+            p["a"], p["b"] = 1 + (i * 7 + draw(st.integers(0, 5))) % 97, 1 + (i * 5) % 89
+            p["prep"] = (kind == "prepared") or (kind == "mixed" and i % 3 == 0)
+            pairs.append(p)
+        for pos in draw(st.lists(st.sampled_from((0, 30, 31, 32, 33, 62, 63, 64, n - 1)), min_size=1, max_size=3)):
+            if pos < n:
+                pairs[pos]["a" if draw(st.booleans()) else "b"] = draw(st.sampled_from((0, R)))
+        return {"pairs": pairs, "dirty": draw(st.booleans()), "rounds": 1, "cpp": draw(st.booleans()), "share": False}
     pairs = [draw(pair()) for _ in range(n)]
     if n >= 2 and draw(st.integers(0, 3)) == 0:
         pairs[draw(st.integers(1, n - 1))] = dict(pairs[0])          # duplicate pair
@@ -111,7 +125,7 @@ def check(ctx, lib, c):
     ident = any(p["a"] % R == 0 or p["b"] % R == 0 for p in pairs)
     mixed = bool(aff) and bool(prep)
     nontriv = (len(pairs) >= 2 and mixed) or ident or not pairs or c["dirty"] or rounds > 1
-    cls = "sum-n%d" % len(pairs) + (":mixed" if mixed else "") + (":identity" if ident else "") + (":dirty" if c["dirty"] else "") + (":reused" if rounds > 1 else "")
+    cls = "sum-n%s" % (len(pairs) if len(pairs) <= 6 else "long") + (":mixed" if mixed else "") + (":identity" if ident else "") + (":dirty" if c["dirty"] else "") + (":reused" if rounds > 1 else "")
     ctx.count(c, nontriv, cls)
     sig = "pairing_sum/%s" % ("cpp" if c["cpp"] else "capi")
     got = F.tower_to_flat(conv.b_fq12(outs[0]))
